@@ -82,3 +82,12 @@ func vfParallel(n int, f func(i int)) {
 	close(next)
 	wg.Wait()
 }
+
+// vfMaxPerType: how often one message type may occur on an enumerated path (thorough: one more level of self-nesting -
+// failure causes, links, nested histories).
+func vfMaxPerType() int {
+	if vrt.Thorough() {
+		return 4
+	}
+	return 2
+}
